@@ -39,6 +39,7 @@ def dispatch (op : String) (inp out : Json) : Json :=
   | "bridge" => runBridgeOp inp out
   | "ccomplete" => runCCompleteOp inp out
   | "entry" => runEntryOp inp out
+  | "entrywb" => runEntryOp inp out
   | "compline" => runComplineOp inp out
   | "trimdesc" => runTrimdescOp inp out
   | "abs" => runAbsOp inp out
